@@ -10,7 +10,9 @@ def one(patch):
     own = None
     mp = os.path.join(os.path.dirname(patch), 'meta.json')
     if os.path.exists(mp):
-        try: own = json.load(open(mp)).get('property')
+        try:
+            _m = json.load(open(mp)); own = _m.get('breaks_property') or _m.get('property')
+            own = own[0] if isinstance(own, list) else own
         except Exception: pass
     alt = os.path.join(os.path.dirname(patch), 'patch.rebased.diff')
     if os.path.basename(patch) == 'patch.diff' and os.path.exists(alt):
